@@ -534,6 +534,69 @@ class NameConverter(ast.NodeTransformer):
         return ast.copy_location(old_node=node, new_node=new_node)
 
 
+class PrivateNameMangler(ast.NodeTransformer):
+    """Apply the compiler's class-private name mangling (__x -> _Cls__x).
+
+    The rewritten method is compiled outside its class body, where the
+    compiler no longer does it.
+    """
+
+    def __init__(self, clsname):
+        self.prefix = "_" + clsname.lstrip("_")
+
+    def mangle(self, name):
+        if (
+            isinstance(name, str)
+            and name.startswith("__")
+            and not name.endswith("__")
+            and "." not in name
+            and self.prefix != "_"
+        ):
+            return self.prefix + name
+        return name
+
+    def visit_Name(self, node):
+        node.id = self.mangle(node.id)
+        return node
+
+    def visit_Attribute(self, node):
+        self.generic_visit(node)
+        node.attr = self.mangle(node.attr)
+        return node
+
+    def visit_arg(self, node):
+        node.arg = self.mangle(node.arg)
+        return node
+
+    def visit_keyword(self, node):
+        self.generic_visit(node)
+        node.arg = self.mangle(node.arg)
+        return node
+
+    def visit_FunctionDef(self, node):
+        self.generic_visit(node)
+        node.name = self.mangle(node.name)
+        return node
+
+    visit_AsyncFunctionDef = visit_FunctionDef
+
+    def visit_ClassDef(self, node):
+        # A nested class mangles its own body with its own name
+        node.name = self.mangle(node.name)
+        inner = PrivateNameMangler(node.name)
+        node.body = [inner.visit(stmt) for stmt in node.body]
+        return node
+
+
+def _enclosing_class(qualname):
+    """Name of the innermost class a function is defined in, if any."""
+    parts = qualname.split(".")
+    for i in range(len(parts) - 2, -1, -1):
+        if parts[i] != "<locals>" and parts[i + 1] != "<locals>":
+            return parts[i]
+    return None
+
+
 def _search_names(co, values, glb, closure=None):
     if isinstance(co, CodeType):
         if closure is not None:
@@ -651,6 +714,11 @@ def recode(fn, ovld, recurse_sym, call_next_sym, newname):
         ast.increment_lineno(tree, -1)
     else:
         tree = ast.parse(src)
+    clsname = _enclosing_class(getattr(fn, "__qualname__", ""))
+    if clsname:
+        body = tree.body[0]
+        body.body = [PrivateNameMangler(clsname).visit(x) for x in body.body]
+        body.args = PrivateNameMangler(clsname).visit(body.args)
     new = NameConverter(
         anal=ovld.argument_analysis,
         recurse_sym=recurse_sym,
